@@ -1,4 +1,165 @@
-import VermouthModel.C17
+import VermouthProofs.C17_Spec
 import VermouthProps.C17Tables
+/-!
+# C17 — per-residue annotations land on the intended residues and translate correctly
+
+Part 1 (this section): `convert_dssp_to_martini`.  `convertImpl` is the transcription of the code
+(flank with dots, then for every entry of the extracted pattern table
+`while pattern in s: s = s.replace(pattern, replacement)`, unflank, merge with the class string);
+`convertSpec` is the documented rule (classes by the table, every maximal helix run of length `L`
+becomes `specRun L`).  All statements are about the tables extracted from the repository
+(`C17Tables.ssCg`, `C17Tables.patterns`).
+-/
 namespace C17
+open C17Tables
+
+/-- **The code computes the documented rule**, for every string (no bound on the length, any
+characters; both sides are `none` exactly when a class is not in `SS_CG`). -/
+theorem convertImpl_eq_spec (s : List Char) :
+    convertImpl ssCg patterns s = convertSpec ssCg s := by
+  rw [patterns_documented]
+  exact convertImpl_doc_eq_spec _ _
+
+/-- every `while pattern in s` loop of the code ends with the pattern gone: the fuel of the model
+never runs out, whatever the string -/
+theorem convert_loops_terminate : ∀ p ∈ patterns, ∀ w : List Char,
+    occurs p.1 (whileReplace p.1 p.2 (w.length + 1) w) = false := by
+  intro p hp w
+  exact whileReplace_done p.1 p.2 (patterns_nonempty p hp) (patterns_decrease_H p hp) _ _
+    (Nat.lt_succ_of_le (countH_le_length w))
+
+/-- the conversion is defined exactly on strings over the keys of `SS_CG` (otherwise `KeyError`) -/
+theorem convert_defined_iff (s : List Char) :
+    (∃ r, convertImpl ssCg patterns s = some r) ↔ ∀ c ∈ s, ∃ g, lookup ssCg c = some g := by
+  rw [convertImpl_eq_spec]
+  unfold convertSpec
+  constructor
+  · rintro ⟨r, hr⟩ c hc
+    cases hcg : s.mapM (lookup ssCg) with
+    | none => rw [hcg] at hr; cases hr
+    | some cg =>
+      have hm := (mapM_eq_some_iff _ _ _).mp hcg
+      have : lookup ssCg c ∈ s.map (lookup ssCg) := List.mem_map_of_mem hc
+      rw [hm, List.mem_map] at this
+      obtain ⟨g, _, hg⟩ := this
+      exact ⟨g, hg.symm⟩
+  · intro h
+    have : s.mapM (lookup ssCg) = some (s.map fun c => (lookup ssCg c).getD 'C') := by
+      rw [mapM_eq_some_iff, List.map_map]
+      apply List.map_congr_left
+      intro c hc
+      obtain ⟨g, hg⟩ := h c hc
+      simp [hg]
+    rw [this]
+    exact ⟨_, rfl⟩
+
+/-- the conversion preserves the length -/
+theorem convert_length (s r : List Char) (h : convertImpl ssCg patterns s = some r) :
+    r.length = s.length := by
+  rw [convertImpl_eq_spec] at h
+  unfold convertSpec at h
+  cases hcg : s.mapM (lookup ssCg) with
+  | none => rw [hcg] at h; cases h
+  | some cg =>
+    rw [hcg] at h
+    cases h
+    have hm := congrArg List.length ((mapM_eq_some_iff _ _ _).mp hcg)
+    simp only [List.length_map] at hm
+    rw [rewriteRuns_length, hm]; simp
+
+/-- every class that the table does not map to helix is translated by the table, at its own
+position, whatever surrounds it -/
+theorem convert_nonhelix_by_table (s r : List Char) (h : convertImpl ssCg patterns s = some r)
+    (i : Nat) (c g : Char) (hc : s[i]? = some c) (hg : lookup ssCg c = some g) (hne : g ≠ 'H') :
+    r[i]? = some g := by
+  rw [convertImpl_eq_spec] at h
+  unfold convertSpec at h
+  cases hcg : s.mapM (lookup ssCg) with
+  | none => rw [hcg] at h; cases h
+  | some cg =>
+    rw [hcg] at h
+    cases h
+    have hm := (mapM_eq_some_iff _ _ _).mp hcg
+    have hi := congrArg (fun l => l[i]?) hm
+    simp only [List.getElem?_map, hc, Option.map_some, hg] at hi
+    have hcgi : cg[i]? = some g := by
+      cases hx : cg[i]? with
+      | none => rw [hx] at hi; simp at hi
+      | some x => rw [hx] at hi; simp at hi; rw [hi]
+    have := rewriteRuns_nonhelix cg 0 i g hcgi hne
+    simpa using this
+
+/-- **run rule**: a maximal run of `run.length` helical classes (any mixture of the classes the
+table maps to helix), delimited on each side by the end of the string or by a non-helical class,
+is rewritten to `specRun run.length` (`3…3` up to 4, `13332`, `113322`, `1113222`, then
+`1111 H… 2222`), and the text before and after is converted independently of it. -/
+theorem convert_run_rule (pre run post pre' post' : List Char)
+    (hpre : convertImpl ssCg patterns pre = some pre') (hpost : convertImpl ssCg patterns post = some post')
+    (hrun : ∀ c ∈ run, lookup ssCg c = some 'H')
+    (hl : ∀ c, pre.getLast? = some c → lookup ssCg c ≠ some 'H')
+    (hr : ∀ c, post.head? = some c → lookup ssCg c ≠ some 'H') :
+    convertImpl ssCg patterns (pre ++ run ++ post) = some (pre' ++ specRun run.length ++ post') := by
+  rw [convertImpl_eq_spec] at hpre hpost ⊢
+  unfold convertSpec at hpre hpost ⊢
+  cases h1 : pre.mapM (lookup ssCg) with
+  | none => rw [h1] at hpre; cases hpre
+  | some cgpre =>
+    cases h2 : post.mapM (lookup ssCg) with
+    | none => rw [h2] at hpost; cases hpost
+    | some cgpost =>
+      rw [h1] at hpre; rw [h2] at hpost
+      cases hpre; cases hpost
+      have m1 := (mapM_eq_some_iff _ _ _).mp h1
+      have m2 := (mapM_eq_some_iff _ _ _).mp h2
+      have mrun : run.map (lookup ssCg) = (hRun run.length).map some := by
+        simp only [hRun, List.map_replicate]
+        rw [List.eq_replicate_iff]
+        constructor
+        · simp
+        · intro x hx
+          rw [List.mem_map] at hx
+          obtain ⟨c, hc, rfl⟩ := hx
+          exact hrun c hc
+      have mall : (pre ++ run ++ post).mapM (lookup ssCg) = some (cgpre ++ hRun run.length ++ cgpost) := by
+        rw [mapM_eq_some_iff]
+        simp only [List.map_append, m1, m2, mrun]
+      rw [mall]
+      simp only [Option.some.injEq]
+      apply rewriteRuns_run
+      · intro e
+        have hlast := congrArg List.getLast? m1
+        simp only [List.getLast?_map, e, Option.map_some] at hlast
+        cases hp : pre.getLast? with
+        | none => rw [hp] at hlast; simp at hlast
+        | some c =>
+          rw [hp] at hlast
+          simp only [Option.map_some, Option.some.injEq] at hlast
+          exact hl c hp hlast
+      · intro e
+        have hhead := congrArg List.head? m2
+        simp only [List.head?_map, e, Option.map_some] at hhead
+        cases hp : post.head? with
+        | none => rw [hp] at hhead; simp at hhead
+        | some c =>
+          rw [hp] at hhead
+          simp only [Option.map_some, Option.some.injEq] at hhead
+          exact hr c hp hhead
+
+/-! non-vacuity: the hypotheses of `convert_run_rule` are satisfiable and the statements say
+something on concrete strings -/
+
+example : convertImpl ssCg patterns ['C', 'H', 'G', 'I', 'H', 'H', 'H', 'H', 'H', 'H', 'E', 'H', 'T']
+    = some ['C', '1', '1', '1', '1', 'H', '2', '2', '2', '2', 'E', '3', 'T'] := by
+  rw [convertImpl_eq_spec]; decide
+
+example : convertImpl ssCg patterns ['C', 'E'] = some ['C', 'E']
+    ∧ convertImpl ssCg patterns ['T', 'H'] = some ['T', '3']
+    ∧ (∀ c ∈ ['G', 'H', 'I', '1', '2'], lookup ssCg c = some 'H')
+    ∧ (∀ c, ['C', 'E'].getLast? = some c → lookup ssCg c ≠ some 'H')
+    ∧ (∀ c, ['T', 'H'].head? = some c → lookup ssCg c ≠ some 'H') := by
+  rw [convertImpl_eq_spec, convertImpl_eq_spec]; decide
+
+example : convertImpl ssCg patterns ['H', 'P'] = none := by
+  rw [convertImpl_eq_spec]; decide
+
 end C17
